@@ -86,7 +86,9 @@ type Env struct {
 	HoldBG bool // background rotation and impact jobs are held at their gates
 
 	gateMu   sync.Mutex
-	gateOpen chan struct{}
+	gateOpen chan struct{} // closed on release: impact loop gate
+	tok      chan struct{} // migrate loop gate: one token = one loop iteration; closed on release
+	arrive   chan struct{} // holds a token while the migrate loop waits at its gate
 }
 
 // prepareServerDir writes the files a technician installs before first start.
@@ -108,17 +110,34 @@ func prepareServerDir(dir string, tempPub glow.PublicKey) error {
 func (e *Env) holdBackground() {
 	e.gateMu.Lock()
 	e.gateOpen = make(chan struct{})
-	ch := e.gateOpen
+	e.tok = make(chan struct{})
+	e.arrive = make(chan struct{}, 1)
+	ch, tok, arrive := e.gateOpen, e.tok, e.arrive
 	e.gateMu.Unlock()
-	block := func() { <-ch }
-	server.VerifSetPoint("migrate-loop", block)
-	server.VerifSetPoint("impact-loop", block)
+	server.VerifSetPoint("impact-loop", func() { <-ch })
+	server.VerifSetPoint("migrate-loop", func() {
+		select {
+		case arrive <- struct{}{}:
+		default:
+		}
+		<-tok
+	})
+}
+
+// Tick lets the background rotation loop run exactly one iteration (clock
+// check, possibly one rotation, sleep) and waits until it is back at its gate.
+func (e *Env) Tick() {
+	<-e.arrive
+	e.tok <- struct{}{}
+	<-e.arrive
+	e.arrive <- struct{}{}
 }
 
 func (e *Env) releaseBackground() {
 	e.gateMu.Lock()
 	if e.gateOpen != nil {
 		close(e.gateOpen)
+		close(e.tok)
 		e.gateOpen = nil
 	}
 	e.gateMu.Unlock()
